@@ -1,0 +1,29 @@
+# GTIRB-Rewriting Rewriting API for GTIRB
+#
+# Verification hooks. This module is only imported when the environment
+# variable GTIRB_REWRITING_VERIF is set; with the variable unset none of this
+# code is loaded or run.
+"""
+A tiny listener registry that announces the quiescent points of a rewrite
+(before a patch is assembled, after an insertion, after a deletion) and hands
+listeners the live ModifyCache. Listeners must only read.
+"""
+
+from typing import Any, Callable, List
+
+_listeners: List[Callable[..., None]] = []
+
+
+def register(listener: Callable[..., None]) -> None:
+    if listener not in _listeners:
+        _listeners.append(listener)
+
+
+def unregister(listener: Callable[..., None]) -> None:
+    if listener in _listeners:
+        _listeners.remove(listener)
+
+
+def emit(event: str, **kwargs: Any) -> None:
+    for listener in tuple(_listeners):
+        listener(event, **kwargs)
